@@ -70,6 +70,10 @@ func c04(args []string) int {
 		base := zerolog.New(w).Level(zerolog.Level(lg))
 		sAdmit, sReject := &cntSampler{admit: true}, &cntSampler{}
 		la, lr := base.Sample(sAdmit), base.Sample(sReject)
+		if lg%2 == 0 {
+			// the sampler travels with the logger through further derivation steps (Output, With, Level, Hook)
+			la, lr = la.Output(w).With().Logger(), lr.Output(w).Level(zerolog.Level(lg)).Hook()
+		}
 		var hookRuns, funcRuns int
 		lh := base.Hook(cntHook{&hookRuns})
 		cntFunc := func(e *zerolog.Event) { funcRuns++ }
